@@ -69,12 +69,13 @@ End C15.
 
 (* ---- checksum canon (Model/Pipeline.v j2 transcribes idr/marshal2.go J2NodeToInterface) ------- *)
 (* Flat formats (csv, csv2 / fixedlength2 / fixed-length columns, EDI elements): a record is an
-   element whose children are named elements holding one text node.  With pairwise distinct
+   node whose children are named elements holding one text node (checked on every flat raw
+   record the harness sees: C15Flat).  With pairwise distinct
    column names (>= 2 of them): different ingested values => different canon. *)
-Theorem canon_injective_flat : forall r names vals vals',
+Theorem canon_injective_flat : forall rty r names vals vals',
   NoDup names -> 2 <= length names ->
   length vals = length names -> length vals' = length names ->
-  j2 (flat_rec r (combine names vals)) = j2 (flat_rec r (combine names vals')) -> vals = vals'.
+  j2 (flat_rec rty r (combine names vals)) = j2 (flat_rec rty r (combine names vals')) -> vals = vals'.
 Proof. exact canon_injective_flat. Qed.
 
 Section Checksum.
@@ -83,10 +84,10 @@ Section Checksum.
   Hypothesis enc_injective : forall a b, enc a = enc b -> a = b.
   Hypothesis H_injective : forall a b, H a = H b -> a = b.
 
-  Theorem checksum_injective_flat : forall r names vals vals',
+  Theorem checksum_injective_flat : forall rty r names vals vals',
     NoDup names -> 2 <= length names ->
     length vals = length names -> length vals' = length names ->
-    checksum enc H (flat_rec r (combine names vals)) = checksum enc H (flat_rec r (combine names vals')) ->
+    checksum enc H (flat_rec rty r (combine names vals)) = checksum enc H (flat_rec rty r (combine names vals')) ->
     vals = vals'.
   Proof. exact (checksum_injective_flat enc H enc_injective H_injective). Qed.
 
@@ -96,7 +97,7 @@ Section Checksum.
 End Checksum.
 
 Example c15_flat_canon_value :
-  j2 (flat_rec [] (combine [[x61]; [x62]] [[x31]; [x32]])) = JObj [([x61], JStr [x31]); ([x62], JStr [x32])].
+  j2 (flat_rec ElementNode [] (combine [[x61]; [x62]] [[x31]; [x32]])) = JObj [([x61], JStr [x31]); ([x62], JStr [x32])].
 Proof. vm_compute. reflexivity. Qed.
 
 (* XML: different ingested values, equal canon (F12, both halves) *)
